@@ -328,6 +328,7 @@ class UpdateContract(Contract):
                 matches = z3.Implies(smt.and_(T.list_update_witness(post.sel("View", i["n"]), dval(c), post.ghost["i0"])),
                                      matches)
             out = [("C02:matches", matches),
+                   ("typed", smt.tyof(post.sel("View", i["n"])) == z3.IntVal(smt.tid_of("dict" if i["kind"] == "dict" else "list"))),
                    ("alloc", post.g["Alloc"] >= pre.g["Alloc"])]
             i1 = post.ghost.get("i1") if c.mode == "prove" else None
             if i1 is not None and i["kind"] == "list":
@@ -498,6 +499,77 @@ class SaveToResourceContract(Contract):
         ]
 
 
+def buffered_info(c, st, root):
+    """(Buf accessor, file) of the buffered root object `root` in state st."""
+    from contracts.buffers import Buf
+    cn = st.rec(root).cls.name
+    return Buf(c.eng, st, cn), to_val(st.rec(root).fields["_filename"])
+
+
+def other_files_kept(c, root):
+    """Frame of a buffered load / save of `root` (file f): the buffer entry, the file and (shared strategy) the
+    contents view of every OTHER file are untouched.  Proved at the Skolem file; assumed at the Skolem files and at
+    the files of the other known roots of the class."""
+    from contracts.buffers import Buf, entry_same, file_same, K_CONTENTS
+    pre, post = c.pre, c.post
+    cn = pre.rec(root).cls.name
+    bp, bq = Buf(c.eng, pre, cn), Buf(c.eng, post, cn)
+    f = to_val(pre.rec(root).fields["_filename"])
+    files = list(pre.ghost.get("skolem_files", []))
+    if c.mode == "assume":
+        for a, rec in pre.objs.items():
+            if rec.tag.startswith("node") and rec.cls.name == cn and not isinstance(rec.fields.get("_root"), ObjV) \
+                    and a != root.addr:
+                files.append(to_val(rec.fields["_filename"]))
+    out = []
+    for g in files:
+        cl = [entry_same(bp, bq, g), z3.Implies(smt.known_name(g), file_same(pre, post, g))]
+        if bp.strategy == "shared":
+            ca = Val.addr(bp.field(g, K_CONTENTS))
+            cl.append(z3.Implies(bp.has(g), post.sel("CView", ca) == pre.sel("CView", ca)))
+        out.append(("frame:other-files-and-entries-untouched", z3.Implies(g != f, smt.and_(cl))))
+    # the buffer tables of OTHER classes, foreign containers other than this file's entry, and the trees of other
+    # roots (their containers, views and container views) are untouched
+    for (cn2, an2), v in pre.statics.items():
+        if cn2 != cn and isinstance(v, Z) and v.hint in ("dict", "list"):
+            a_ = Val.addr(v.term)
+            out.append(("frame:other-class-static-container", post.sel("Cell", a_) == pre.sel("Cell", a_)))
+    for t in pre.ghost.get("frame_cells", []):
+        out.append(("frame:foreign-container", z3.Implies(z3.And(t != bp.entry_addr(f), t != bq.entry_addr(f)),
+                                                          post.sel("Cell", t) == pre.sel("Cell", t))))
+    mine = {m.addr for m in tree_nodes(pre, root)}
+    mycells = [Val.addr(pre.rec(ObjV(a)).fields["_data"].term) for a in mine if isinstance(pre.rec(ObjV(a)).fields.get("_data"), Z)]
+    for a, rec in pre.objs.items():
+        dv = rec.fields.get("_data")
+        if not rec.tag.startswith("node") or a in mine or not isinstance(dv, Z):
+            continue
+        da = Val.addr(dv.term)
+        shared_cell = smt.or_([da == mc for mc in mycells] + [da == Val.addr(bp.field(f, K_CONTENTS)),
+                                                              da == Val.addr(bq.field(f, K_CONTENTS))])
+        keep = [post.sel("Cell", da) == pre.sel("Cell", da), post.sel("View", z3.IntVal(a)) == pre.sel("View", z3.IntVal(a))]
+        if "CView" in pre.g:
+            keep.append(post.sel("CView", da) == pre.sel("CView", da))
+        out.append(("frame:other-tree-untouched", z3.Implies(z3.Not(shared_cell), smt.and_(keep))))
+    return out
+
+
+def flushed_on_path(st):
+    return any(e[0] in ("flush-buffer", "flush-buffer-error") for e in st.events)
+
+
+def buf_mod(c, root):
+    """What a buffered load / save may change: the tree (a load), the buffer statics, the object's container binding
+    (shared-memory strategy) - and, if the capacity forces a flush, files."""
+    cn = c.pre.rec(root).cls.name
+    locs = [("g", n) for n in ("Cell", "View", "CView", "Alloc", "Res", "Wr", "FS", "Meta", "FsTick", "IoFault") if n in c.pre.g]
+    locs += [("g", n) for n in c.pre.g if n.startswith("LockDom:")]
+    locs += [("static", cn, "_CURRENT_BUFFER_SIZE"), ("static", cn, "_buffered_collections")]
+    for a, rec in c.pre.objs.items():
+        if rec.tag.startswith("node") and "_data" in rec.fields:
+            locs.append(("field", a, "_data"))
+    return locs
+
+
 class LoadContract(Contract):
     """X._load(self): no-op while synchronisation is suspended; otherwise the in-memory tree of the root is
     brought in line with the source (the resource; the buffer while buffered)."""
@@ -546,8 +618,80 @@ class LoadContract(Contract):
             return [("alloc", c.post.g["Alloc"] >= c.pre.g["Alloc"]),
                     ("C10:lock-tables-only-grow", locks_monotone(c))] + tree_consistency(c, ri)
 
+        # ---- buffered mode (C05): the logical store L(f) - the buffered copy if there is one, else the file - takes
+        # the place of the resource.  Clauses about L' and about files are not claimed on a path on which the capacity
+        # forced a buffer-wide flush (call sites: such paths are not generated, [A-NOOVERFLOW]).
+        def Lpre(c):
+            b, f = buffered_info(c, c.pre, info(c)["root"])
+            return b.logical(f)
+
+        def post_bufloaded(c):
+            i = info(c)
+            pre, post = c.pre, c.post
+            bp, f = buffered_info(c, pre, i["root"])
+            bq, _ = buffered_info(c, post, i["root"])
+            L = bp.logical(f)
+            out = [("C05:view-is-the-logical-content", pyeq(post.sel("View", i["rn"]), L)),
+                   ("alloc", post.g["Alloc"] >= pre.g["Alloc"]),
+                   ("C10:lock-tables-only-grow", locks_monotone(c))]
+            ri = node(c, pre, i["root"])
+            out.extend(tc for tc in tree_consistency(c, ri) if not tc[0].startswith("frame:"))
+            if c.mode == "assume" or not flushed_on_path(post):
+                out += other_files_kept(c, i["root"])
+                out += [("C05:logical-content-kept", pyeq(bq.logical(f), L)),
+                        ("C05:logical-content-present", bq.logical(f) != VAbsent),
+                        ("C05:deferred-no-file-effect", z3.And(post.g["FS"] == pre.g["FS"], post.g["Res"] == pre.g["Res"],
+                                                               post.g["Wr"] == pre.g["Wr"])),
+                        ("C15:entry-well-formed", z3.And(bq.has(f), bq.wellformed(f)))]
+            if bp.strategy == "shared" and (c.mode == "assume" or not flushed_on_path(post)):
+                from contracts.buffers import K_CONTENTS
+                d1 = post.rec(i["root"]).fields["_data"].term
+                out.append(("C05:object-shares-the-buffered-container", d1 == bq.field(f, K_CONTENTS)))
+            if c.mode == "assume":
+                c.eng.note("[A-NOOVERFLOW]")
+                # the entry of f (possibly created by this load) is a container outside every collection tree
+                post.ghost["frame_cells"] = list(post.ghost.get("frame_cells", [])) + [bq.entry_addr(f)]
+                post.event("load", i["root"].addr, L, {m.addr: post.sel("View", z3.IntVal(m.addr))
+                                                       for m in tree_nodes(pre, i["root"])})
+            return out
+
+        def nofile(c):
+            if c.mode == "assume" or not flushed_on_path(c.post):
+                return [("C05:deferred-no-file-effect", z3.And(c.post.g["FS"] == c.pre.g["FS"], c.post.g["Res"] == c.pre.g["Res"],
+                                                               c.post.g["Wr"] == c.pre.g["Wr"]))]
+            return []
+
+        def post_bufabsent(c):
+            if c.mode == "assume":
+                i = info(c)
+                c.post.event("load", i["root"].addr, VAbsent,
+                             {m.addr: c.post.sel("View", z3.IntVal(m.addr)) for m in tree_nodes(c.pre, i["root"])})
+            fr = other_files_kept(c, info(c)["root"]) if (c.mode == "assume" or not flushed_on_path(c.post)) else []
+            return [("alloc", c.post.g["Alloc"] >= c.pre.g["Alloc"]), ("C10:lock-tables-only-grow", locks_monotone(c))] + nofile(c) + fr
+
+        def post_buffault(c):
+            if c.mode == "assume":
+                c.post.event("io-fault", "_load")
+            return [("alloc", c.post.g["Alloc"] >= c.pre.g["Alloc"]), ("C10:lock-tables-only-grow", locks_monotone(c))] + nofile(c)
+
+        def bmod(c):
+            return buf_mod(c, info(c)["root"])
+
+        def buf(c):
+            return z3.And(info(c)["susp"] == 0, z3.Not(unbuf(c)))
+
+        is_buffered_class = "buffered" in cx.pre.rec(info(cx)["root"]).fields
+        bcases = [
+            Case("buf-loaded", "normal", guard=lambda c: z3.And(buf(c), Lpre(c) != VAbsent), modifies=bmod,
+                 post=post_bufloaded, result=lambda c: Const(None)),
+            Case("buf-absent", "normal", guard=lambda c: z3.And(buf(c), Lpre(c) == VAbsent), modifies=bmod,
+                 post=post_bufabsent, result=lambda c: Const(None)),
+            Case("buf-fault", "raise", guard=buf, modifies=bmod, post=post_buffault,
+                 exc=("OSError", "ValueError", "TypeError", "BufferedError")),
+        ] if is_buffered_class else []
         return [
             Case("suspended", "normal", guard=lambda c: info(c)["susp"] > 0, result=lambda c: Const(None)),
+        ] + bcases + [
             Case("absent", "normal", guard=lambda c: z3.And(info(c)["susp"] == 0, unbuf(c), cur(c) == VAbsent),
                  post=post_absent, result=lambda c: Const(None)),
             Case("loaded", "normal", guard=lambda c: z3.And(info(c)["susp"] == 0, unbuf(c), cur(c) != VAbsent),
@@ -593,8 +737,46 @@ class SaveContract(Contract):
 
         def ser(c):
             return serialisable(c.pre.sel("View", info(c)["rn"]))
+
+        def post_bufsaved(c):
+            i = info(c)
+            pre, post = c.pre, c.post
+            bq, f = buffered_info(c, post, i["root"])
+            view = pre.sel("View", i["rn"])
+            out = [("alloc", post.g["Alloc"] >= pre.g["Alloc"]), ("C10:lock-tables-only-grow", locks_monotone(c))]
+            if c.mode == "assume" or not flushed_on_path(post):
+                out += other_files_kept(c, i["root"])
+                out += [("C05:views-kept", post.g["View"] == pre.g["View"]),
+                        ("C05:buffer-holds-the-view", z3.And(bq.has(f), pyeq(bq.logical(f), view))),
+                        ("C05:deferred-no-file-effect", z3.And(post.g["FS"] == pre.g["FS"], post.g["Res"] == pre.g["Res"],
+                                                               post.g["Wr"] == pre.g["Wr"])),
+                        ("C15:entry-well-formed", bq.wellformed(f))]
+            if c.mode == "assume":
+                c.eng.note("[A-NOOVERFLOW]")
+                post.event("save", i["rid"], view)
+            return out
+
+        def post_buffault(c):
+            if c.mode == "assume":
+                c.post.event("io-fault", "_save")
+            return [("alloc", c.post.g["Alloc"] >= c.pre.g["Alloc"]), ("C10:lock-tables-only-grow", locks_monotone(c))]
+
+        def bmod(c):
+            return buf_mod(c, info(c)["root"])
+
+        def buf(c):
+            return z3.And(info(c)["susp"] == 0, z3.Not(unbuf(c)))
+
+        is_buffered_class = "buffered" in cx.pre.rec(info(cx)["root"]).fields
+        bcases = [
+            Case("buf-saved", "normal", guard=buf, modifies=bmod, post=post_bufsaved,
+                 result=lambda c: Const(None)),
+            Case("buf-fault", "raise", guard=buf, modifies=bmod, post=post_buffault,
+                 exc=("OSError", "ValueError", "TypeError", "BufferedError")),
+        ] if is_buffered_class else []
         return [
             Case("suspended", "normal", guard=lambda c: info(c)["susp"] > 0, result=lambda c: Const(None)),
+        ] + bcases + [
             Case("saved", "normal", guard=lambda c: z3.And(info(c)["susp"] == 0, unbuf(c), ser(c)), modifies=mod,
                  post=post, result=lambda c: Const(None)),
             Case("unserialisable", "raise", guard=lambda c: z3.And(info(c)["susp"] == 0, unbuf(c), z3.Not(ser(c))),
